@@ -20,7 +20,9 @@ META = {
 }
 THEOREMS = ['Scalibr.Walk.C10_inodes', 'Scalibr.Walk.C10_size', 'Scalibr.Walk.C10_cancel_walk', 'Scalibr.Walk.C10_cancel_same_file',
             'Scalibr.Walk.C10_cancel_before', 'Scalibr.Walk.walkNode_inv', 'Scalibr.Walk.runRoots_visited', 'Scalibr.Walk.runRoots_sizeInv',
-            'Scalibr.Walk.C10_inodes_exact', 'Scalibr.Walk.C10_cancel_trace', 'Scalibr.Walk.C10_cancel_prefix', 'Scalibr.Walk.C10_cancel_outcome', 'Scalibr.Walk.run_trace']
+            'Scalibr.Walk.C10_inodes_exact', 'Scalibr.Walk.C10_cancel_trace', 'Scalibr.Walk.C10_cancel_prefix', 'Scalibr.Walk.C10_cancel_outcome', 'Scalibr.Walk.run_trace',
+            'Scalibr.Walk.C10_cancel_before_ctx', 'Scalibr.Walk.C10_visits_vs_inodes', 'Scalibr.Walk.C10_fails_when_more', 'Scalibr.Walk.C10_fails_iff_more',
+            'Scalibr.Walk.C10_cancel_between', 'Scalibr.Walk.C10_early_failure_witness']
 
 LAYER_THEOREMS = ['Scalibr.Overlay.C10_layer_bytes', 'Scalibr.Overlay.C10_layer_bytes_loader', 'Scalibr.Overlay.C10_layer_bytes_final',
                   'Scalibr.Overlay.C10_layer_bytes_boundary', 'Scalibr.Overlay.C10_disk_bytes']
@@ -71,8 +73,12 @@ def run(ctx):
             for cl in calls[ca:]:
                 if cl.split('@')[1] != p:
                     return 'Extract call %s started on another file after the context was cancelled in call #%d (%s)' % (cl, ca, calls[ca - 1])
-            # work remained (model says so) -> failure must be reported
-            if fm.get('err') == 'ctx' and fi.get('err') == 'none':
+            # work remained -> failure must be reported.  "Work remained" is read from the SPECIFICATION side (cspecerr =
+            # cancelOutcome on the specification's trace: a handleFile call remained after the cancelling one) wherever the
+            # specification has a verdict (CancelCfg, theorem C10_cancel_outcome); in the other classes (inode limit, fatal
+            # errors or a panicking extractor together with the cancellation) only the model's verdict exists
+            remained = fm.get('cspecerr') == 'ctx' if fm.get('cancelhyp') == '1' else fm.get('err') == 'ctx'
+            if remained and fi.get('err') == 'none':
                 return 'cancelled with work remaining but the scan reported success'
         return None
     W.run_stream(ctx, 'limits', n, oracle)
